@@ -279,6 +279,29 @@ class Deadlock(Exception):
     pass
 
 
+class _Worker:
+    """A reusable OS thread (creating one costs milliseconds in this sandbox; an execution needs 2-3)."""
+
+    def __init__(self):
+        self.go = _alloc()
+        self.go.acquire()
+        self.job = None
+        self.thread = threading.Thread(target=self._loop, daemon=True)
+        self.thread.start()
+
+    def _loop(self):
+        while True:
+            self.go.acquire()
+            fn, arg = self.job
+            self.job = None
+            fn(arg)
+            _IDLE.append(self)          # never reached by a thread parked for ever (deadlock / abort)
+
+
+_IDLE: List[_Worker] = []
+os.register_at_fork(after_in_child=_IDLE.clear)      # threads do not survive a fork
+
+
 class _TS:
     """State of one scheduled thread."""
     __slots__ = ("tid", "body", "sem", "ident", "done", "blocked_on", "exc", "results", "steps", "pending", "data")
@@ -528,11 +551,12 @@ class Run:
         _ACTIVE = self
         try:
             for ts in self.threads:
-                th = threading.Thread(target=self._thread_main, args=(ts,), daemon=True)
-                ts.data["thread"] = th
-                th.start()
-                ts.ident = th.ident
+                w = _IDLE.pop() if _IDLE else _Worker()
+                ts.data["worker"] = w
+                ts.ident = w.thread.ident
                 self.by_ident[ts.ident] = ts
+                w.job = (self._thread_main, ts)
+                w.go.release()
             self.steps += 1
             first = self.policy.choose(self, None, self._enabled(), "start", None)
             self.switches.append((self.steps, first))
@@ -540,9 +564,7 @@ class Run:
             self.threads[first - 1].sem.release()
             if not self.main.acquire(timeout=join_timeout):
                 self.aborted = f"run did not finish within {join_timeout}s (harness failure)"
-            if self.deadlock is None and self.aborted is None:
-                for ts in self.threads:
-                    ts.data["thread"].join(5)
+            # (the last thread released ``main`` as its final action on shared state; workers return to the pool)
         finally:
             _ACTIVE = None
         return self
